@@ -59,6 +59,11 @@ int snoopy_datasource_env_all (char * const resultBuf, size_t resultBufSize, __a
 {
     int resultSize = 0; // Current size of message to be returned back - does not include trailing null character
 
+    // An empty environment is an empty string - do not hand the buffer back as it came
+    if (resultBufSize > 0) {
+        resultBuf[0] = '\0';
+    }
+
     // Loop through all environmental variables
     char *envItem = (NULL != environ) ? *environ : NULL; // Get first environmental variable (environ is NULL after clearenv())
     int i = 0;
